@@ -52,6 +52,8 @@ type Run struct {
 	inconcl   []string
 	findings  []Finding
 	events    map[string]int64
+	leg       bool
+	legViol   map[string]*legViol
 }
 
 func env(k, d string) string {
@@ -211,6 +213,15 @@ func (r *Run) Violation(sig string, caseID string, witness any) bool {
 	sig = r.Prop + "|" + sig
 	r.mu.Lock()
 	defer r.mu.Unlock()
+	if r.leg {
+		if v, ok := r.legViol[sig]; ok {
+			v.Count++
+		} else {
+			r.legViol[sig] = &legViol{Sig: sig, Case: caseID, Witness: witness, Count: 1}
+		}
+		r.viol[sig]++
+		return true
+	}
 	for _, f := range r.findings {
 		if f.Status == "known" && f.Property == r.Prop && f.Signature == sig {
 			r.known[sig]++
